@@ -22,6 +22,7 @@ func init() {
 			"S5 the relations over collections (calls, parameters, struct members) compare every element, " +
 			"S6 a parameter is accepted without comparing its type name only on an edge where IsFile() == KindIsFile was established (a plain file type may be renamed; composite types containing files may not). " +
 			"S7 some function reachable from Ast.EquivalentCall reads the members of struct types (struct-typed parameters are not compared by name only). " +
+			"S8 on the error edge of Pipestance.Lock no pipestance is returned. " +
 			"NOT decided: completeness (that cosmetic edits are accepted), races between two simultaneous first starts.",
 		Assumptions: commonAssumptions,
 	}
